@@ -187,7 +187,11 @@ func (rec *Record) Coq() string {
 		}
 		obsT = "OPages " + common.CoqList(pages)
 	}
-	return fmt.Sprintf("{| qi_req := %s; qi_page := %s; qi_obs := %s |}", rec.Item.CoqReq, rec.Spec.Coq(), obsT)
+	req := rec.Item.CoqReq
+	if !rec.Item.DataQ {
+		req = "EQ (" + req + ")"
+	}
+	return fmt.Sprintf("{| qi_req := %s; qi_page := %s; qi_obs := %s |}", req, rec.Spec.Coq(), obsT)
 }
 
 // ---------------------------------------------------------------------------------------------
@@ -412,6 +416,7 @@ func RunScenario(id uint64, seed uint64, big bool, budget int) *CaseResult {
 	sc := Build(seed, big)
 	r := common.NewRng(seed ^ 0x5eed5eed5eed5eed)
 	items := sc.Items(r)
+	items = append(items, sc.DataItems(r)...)
 	res := &CaseResult{}
 	toggle := int(seed % 2)
 	paged := 0
@@ -483,8 +488,8 @@ func RunScenario(id uint64, seed uint64, big bool, budget int) *CaseResult {
 		}
 		itemsJSON = append(itemsJSON, j)
 	}
-	res.Coq = fmt.Sprintf("{| qc_id := %s;\n   qc_state := %s;\n   qc_addrs := %s;\n   qc_items := [\n     %s\n   ] |}",
-		cn(id), common.CoqList(StateRows(sc.State)), addrTable(sc), strings.Join(itemsCoq, ";\n     "))
+	res.Coq = fmt.Sprintf("{| qc_id := %s;\n   qc_state := %s;\n   qc_data := %s;\n   qc_addrs := %s;\n   qc_items := [\n     %s\n   ] |}",
+		cn(id), common.CoqList(StateRows(sc.State)), common.CoqList(DataRows(sc.Data)), addrTable(sc), strings.Join(itemsCoq, ";\n     "))
 	counts := map[string]int{}
 	for t, rows := range sc.State.Tables {
 		if len(rows) > 0 {
